@@ -293,9 +293,14 @@ func (e *env) play(hi int, h hist) []tracefmt.Rec {
 		s.settle()
 		time.Sleep(60 * time.Millisecond)
 	}
+	for _, bc := range s.bs {
+		bc.SetOnRecv(nil)
+	}
 	s.mu.Lock()
 	defer s.mu.Unlock()
-	return append(s.recs, tracefmt.Rec{"ev": "end", "notes": s.note})
+	out := make([]tracefmt.Rec, 0, len(s.recs)+1) // own copy: late arrivals must not touch it
+	out = append(out, s.recs...)
+	return append(out, tracefmt.Rec{"ev": "end", "notes": append([]string{}, s.note...)})
 }
 
 func TestReplay(t *testing.T) {
